@@ -490,3 +490,42 @@ def _unseeded():
             o.check("unseeded_calls_differ", _bytes(a) != _bytes(b), sub="%s:global=%s" % (name, prep_name))
     o.stat("lib_calls", 24)
     return o
+
+
+def replay_one(p, failure):
+    """Plain re-execution of one recorded history (no search): the operations named in the failure's sub id
+    are applied one after the other in a fresh process and every seeded artefact is compared with the table."""
+    from mc.isolate import isolated
+    sub = failure.get("sub") or ""
+    if p["kind"] != "hist" or not sub.startswith("h="):
+        o = evaluate(p)
+        ids = ["%s|%s" % (f["clause"], f["sub"]) for f in o.failures]
+        return ("%s|%s" % (failure["clause"], failure["sub"])) in ids, "re-evaluated whole case"
+    ops = sub[2:].split(":")[0].split(",")
+    return isolated(_replay_history, p["family"], ops, failure["clause"])
+
+
+def _replay_history(family, ops, clause):
+    from aotools.turbulence import infinitephasescreen as ips, phasescreen, turb
+    numpy.random.seed(12345)
+    world = _W({"rows": {}}, modules=(ips, phasescreen, turb))
+    world.family = family
+    apply_op = _apply_factory(family)
+    bad = []
+    for k, op in enumerate(ops):
+        pre = world.components()
+        res = apply_op(world, op)
+        post = world.components()
+        rows = world.objects["rows"]
+        for slot, (kind, prm, seed) in SLOTS[family].items():
+            if seed is not None and slot in rows and _bytes(world.objects[slot].scrn) != _TABLE[(family, slot)][rows[slot]]:
+                bad.append("step %d (%s): %s differs from its isolated reference" % (k, op, slot))
+        if op in FUNCS[family] and FUNCS[family][op][2] is not None and _bytes(res) != _TABLE[(family, op)]:
+            bad.append("step %d (%s): result differs from its isolated reference" % (k, op))
+        touched = op[4:] if (op.startswith("new_") or op.startswith("row_")) else None
+        others = [c for c in ss.changed(pre, post) if c.startswith("obj:") and c != "obj:" + str(touched)]
+        if others:
+            bad.append("step %d (%s): changed %s" % (k, op, others))
+        if pre["numpy.global_rng"] != post["numpy.global_rng"] and (op in FUNCS[family] and FUNCS[family][op][2] is not None):
+            bad.append("step %d (%s): global RNG touched" % (k, op))
+    return bool(bad), "history %s -> %s" % (ops, bad or "all seeded artefacts equal their isolated references")
